@@ -11,7 +11,7 @@ import PynencModel.Gen.StatusTable
     bc.reset
     bc.status  <id> <status>          test-only injection of a status (no release)
     bc.final   <id> <status>          `set_invocation_status(id, final status)`: status + release_waiters
-    bc.wait    <waiter|-|e> <id>*     `orchestrator.waiting_for_results` (None / '' waiter and [] are ignored)
+    bc.wait    <waiter|-|e> <id>*     `orchestrator.waiting_for_results` (None / '' waiter and [] are ignored; awaited ids that are final are released)
     bc.release <id>                   `orchestrator.release_waiters`
     bc.get     <mem|sql> <limit>      -> "<k> <sorted ids of the unbounded answer>", k = size of the limited answer
   Part B (thread runner on a call tree, deterministic round-robin schedule):
@@ -93,7 +93,12 @@ def handle (w : St) : List String → Option (St × String)
     | some wo, some l =>
       if truthy wo then
         match wo with
-        | some wt => ({ w with mem := memStep w.mem (.wait wt l), sql := sqlStep w.sql (.wait wt l) }, "ok")
+        | some wt =>
+          -- `BaseOrchestrator.waiting_for_results`: record the declarations, then release the waiters of every awaited id that
+          -- has already finished (`filter_final`)
+          let fin := l.filter (fun i => match w.status.get? i with | some s => (Gen.table (some s)).isFinal | none => false)
+          let hist : List (Op String) := Op.wait wt l :: fin.map Op.release
+          ({ w with mem := hist.foldl memStep w.mem, sql := hist.foldl sqlStep w.sql }, "ok")
         | none => (w, "ok")
       else (w, "ok")
     | _, _ => (w, "bad-op")
